@@ -121,6 +121,7 @@ type inliner struct {
 	// per file: import name -> path that must be added
 	addImports map[string]map[string]string
 	inlinedAll map[*types.Func]int // calls inlined
+	unrolled   int
 }
 
 func (il *inliner) text(n ast.Node) string {
@@ -700,6 +701,7 @@ func (il *inliner) run() {
 		file := il.fset.Position(f.Pos()).Filename
 		var visitList func(list []ast.Stmt)
 		var visitStmt func(s ast.Stmt)
+		var curFn *ast.FuncDecl
 		visitList = func(list []ast.Stmt) {
 			for _, s := range list {
 				visitStmt(s)
@@ -713,6 +715,14 @@ func (il *inliner) run() {
 				st, en := il.fset.Position(s.Pos()).Offset, il.fset.Position(s.End()).Offset
 				il.edits[file] = append(il.edits[file], inlineEdit{st, en, t})
 				return // nested statements are handled in the next round
+			}
+			if rs, ok := s.(*ast.RangeStmt); ok {
+				if t, ok := il.unrollRange(rs, curFn); ok {
+					st, en := il.fset.Position(s.Pos()).Offset, il.fset.Position(s.End()).Offset
+					il.edits[file] = append(il.edits[file], inlineEdit{st, en, t})
+					il.unrolled++
+					return
+				}
 			}
 			switch x := s.(type) {
 			case *ast.BlockStmt:
@@ -759,6 +769,7 @@ func (il *inliner) run() {
 			if obj, _ := il.pkg.TypesInfo.Defs[fd.Name].(*types.Func); obj != nil && il.fresh[obj] != nil {
 				continue
 			}
+			curFn = fd
 			visitList(fd.Body.List)
 		}
 	}
@@ -772,9 +783,6 @@ func buildInlinedOverlay(pkgs []*packages.Package, base map[string][]byte) *inli
 		res.Overlay[k] = v
 	}
 	fresh := freshFuncDecls(pkgs)
-	if len(fresh) == 0 {
-		return res
-	}
 	// uses of each fresh function (to decide whether its declaration can go)
 	uses := map[*types.Func]int{}
 	packages.Visit(pkgs, nil, func(p *packages.Package) {
@@ -799,9 +807,7 @@ func buildInlinedOverlay(pkgs []*packages.Package, base map[string][]byte) *inli
 				any = true
 			}
 		}
-		if !any {
-			return
-		}
+		_ = any
 		for _, f := range p.Syntax {
 			name := p.Fset.Position(f.Pos()).Filename
 			if b, ok := base[name]; ok {
@@ -828,6 +834,10 @@ func buildInlinedOverlay(pkgs []*packages.Package, base map[string][]byte) *inli
 			res.Count += n
 		}
 		res.Notes = append(res.Notes, il.notes...)
+		if il.unrolled > 0 {
+			res.Count += il.unrolled
+			res.Notes = append(res.Notes, fmt.Sprintf("%d range loop(s) over a small literal unrolled in package %s", il.unrolled, short(p.PkgPath)))
+		}
 		for file, es := range il.edits {
 			// drop edits nested inside a dropped declaration or inside another edit
 			sort.Slice(es, func(i, j int) bool {
@@ -931,7 +941,7 @@ func evaluate(P *Prog, prop, tier string, spec *propSpec, findings []Finding) (*
 			bad[o.Rule] = true
 		}
 	}
-	if len(bad) == 0 || len(freshFuncDecls(P.Pkgs)) == 0 {
+	if len(bad) == 0 {
 		return c, nil
 	}
 	Q, notes := inlinedView(P)
@@ -1012,4 +1022,211 @@ func hasNamedResults(fd *ast.FuncDecl) bool {
 		}
 	}
 	return false
+}
+
+// ---------------------------------------------------------------------------
+// Unrolling of `for _, x := range []T{a, b}` (a literal of at most six elements, written in
+// place or held by a local that is only ever ranged over): the "table-driven" form of a series
+// of similar statements is expanded back into the series,
+//     { { var x T = a; body } { var x T = b; body } }
+// when the body neither breaks out of / continues the loop nor assigns anything the element
+// expressions read, and the elements are call-free.
+// ---------------------------------------------------------------------------
+
+func (il *inliner) unrollRange(rs *ast.RangeStmt, fd *ast.FuncDecl) (string, bool) {
+	info := il.pkg.TypesInfo
+	if rs.Tok != token.DEFINE && !(rs.Key == nil && rs.Value == nil) {
+		return "", false
+	}
+	var lit *ast.CompositeLit
+	switch x := ast.Unparen(rs.X).(type) {
+	case *ast.CompositeLit:
+		lit = x
+	case *ast.Ident:
+		obj, _ := info.Uses[x].(*types.Var)
+		if obj == nil || fd == nil || obj.Parent() == il.pkg.Types.Scope() {
+			return "", false
+		}
+		// defined once by a literal, every other use is the operand of a range statement
+		var def *ast.CompositeLit
+		okUse := true
+		rangeOperand := map[*ast.Ident]bool{}
+		ast.Inspect(fd.Body, func(n ast.Node) bool {
+			if r, ok := n.(*ast.RangeStmt); ok {
+				if id, ok := ast.Unparen(r.X).(*ast.Ident); ok {
+					rangeOperand[id] = true
+				}
+			}
+			return true
+		})
+		ast.Inspect(fd.Body, func(n ast.Node) bool {
+			switch y := n.(type) {
+			case *ast.AssignStmt:
+				for i, l := range y.Lhs {
+					if id, ok := l.(*ast.Ident); ok && (info.Defs[id] == types.Object(obj) || info.Uses[id] == types.Object(obj)) {
+						if y.Tok == token.DEFINE && info.Defs[id] == types.Object(obj) && len(y.Lhs) == len(y.Rhs) && def == nil {
+							if cl, ok := ast.Unparen(y.Rhs[i]).(*ast.CompositeLit); ok {
+								def = cl
+								continue
+							}
+						}
+						okUse = false
+					}
+				}
+			case *ast.Ident:
+				if info.Uses[y] == types.Object(obj) && !rangeOperand[y] {
+					okUse = false
+				}
+			}
+			return true
+		})
+		if !okUse || def == nil {
+			return "", false
+		}
+		lit = def
+	default:
+		return "", false
+	}
+	at, ok := lit.Type.(*ast.ArrayType)
+	if !ok || len(lit.Elts) == 0 || len(lit.Elts) > 6 {
+		return "", false
+	}
+	elemType := il.typeText(at.Elt)
+	// call-free, key-free elements; collect what they read
+	reads := map[types.Object]bool{}
+	plain := true
+	for _, e := range lit.Elts {
+		if _, isKV := e.(*ast.KeyValueExpr); isKV {
+			return "", false
+		}
+		ast.Inspect(e, func(n ast.Node) bool {
+			switch y := n.(type) {
+			case *ast.CallExpr, *ast.FuncLit, *ast.UnaryExpr:
+				if u, ok := y.(*ast.UnaryExpr); ok && u.Op != token.AND && u.Op != token.ARROW {
+					return true
+				}
+				plain = false
+			case *ast.CompositeLit:
+				plain = false
+			case *ast.Ident:
+				if o := info.Uses[y]; o != nil {
+					reads[o] = true
+				}
+			}
+			return true
+		})
+	}
+	if !plain {
+		return "", false
+	}
+	// the body: no break / continue of this loop, no labels, no assignment to what the elements read
+	bad := false
+	var walk func(n ast.Node, inLoop, inSwitch bool)
+	walk = func(n ast.Node, inLoop, inSwitch bool) {
+		ast.Inspect(n, func(m ast.Node) bool {
+			if m == nil || bad {
+				return false
+			}
+			switch y := m.(type) {
+			case *ast.FuncLit:
+				return false
+			case *ast.LabeledStmt:
+				bad = true
+			case *ast.ForStmt:
+				if m != n {
+					walk(y.Body, true, false)
+					return false
+				}
+			case *ast.RangeStmt:
+				if m != n {
+					walk(y.Body, true, false)
+					return false
+				}
+			case *ast.SwitchStmt:
+				if m != n {
+					walk(y.Body, inLoop, true)
+					return false
+				}
+			case *ast.TypeSwitchStmt:
+				if m != n {
+					walk(y.Body, inLoop, true)
+					return false
+				}
+			case *ast.SelectStmt:
+				if m != n {
+					walk(y.Body, inLoop, true)
+					return false
+				}
+			case *ast.BranchStmt:
+				switch y.Tok {
+				case token.BREAK:
+					if y.Label != nil || (!inLoop && !inSwitch) {
+						bad = true
+					}
+				case token.CONTINUE:
+					if y.Label != nil || !inLoop {
+						bad = true
+					}
+				case token.GOTO:
+					bad = true
+				}
+			case *ast.AssignStmt:
+				for _, l := range y.Lhs {
+					if id, ok := l.(*ast.Ident); ok {
+						if o := info.Uses[id]; o != nil && reads[o] {
+							bad = true
+						}
+					}
+				}
+			case *ast.IncDecStmt:
+				if id, ok := y.X.(*ast.Ident); ok {
+					if o := info.Uses[id]; o != nil && reads[o] {
+						bad = true
+					}
+				}
+			case *ast.UnaryExpr:
+				if y.Op == token.AND {
+					if id, ok := y.X.(*ast.Ident); ok {
+						if o := info.Uses[id]; o != nil && reads[o] {
+							bad = true
+						}
+					}
+				}
+			}
+			return true
+		})
+	}
+	walk(rs.Body, false, false)
+	if bad {
+		return "", false
+	}
+	// element type names must mean the same here: the literal is in this very function
+	file := il.fset.Position(rs.Pos()).Filename
+	src := il.src[file]
+	lb, rb := il.fset.Position(rs.Body.Lbrace).Offset+1, il.fset.Position(rs.Body.Rbrace).Offset
+	body := string(src[lb:rb])
+	keyName, valName := "", ""
+	if id, ok := rs.Key.(*ast.Ident); ok && id.Name != "_" {
+		keyName = id.Name
+	}
+	if id, ok := rs.Value.(*ast.Ident); ok && id.Name != "_" {
+		valName = id.Name
+	}
+	var sb strings.Builder
+	sb.WriteString("{ ")
+	if id, ok := ast.Unparen(rs.X).(*ast.Ident); ok {
+		sb.WriteString("_ = " + id.Name + "\n")
+	}
+	for i, e := range lit.Elts {
+		sb.WriteString("{ ")
+		if keyName != "" {
+			sb.WriteString(fmt.Sprintf("var %s int = %d; _ = %s; ", keyName, i, keyName))
+		}
+		if valName != "" {
+			sb.WriteString(fmt.Sprintf("var %s %s = %s; _ = %s; ", valName, elemType, il.text(e), valName))
+		}
+		sb.WriteString("\n" + body + "\n}\n")
+	}
+	sb.WriteString("}")
+	return sb.String(), true
 }
